@@ -6,7 +6,7 @@ func extraRules() []*Rule {
 	out = append(out, rulesLocks()...)
 	out = append(out, rulesTables()...)
 	out = append(out, rulesStorage()...)
-	out = append(out, ruleLifecycle(), ruleHeartbeat(), ruleRecordOffset(), ruleFollowerLookup(), ruleOffsetOwner(), ruleSendLabel())
+	out = append(out, ruleLifecycle(), ruleHeartbeat(), ruleRecordOffset(), ruleFollowerLookup(), ruleOffsetOwner(), ruleSendLabel(), ruleVerifyRound(), ruleContactRefresh(), ruleHandlerDemote())
 	return out
 }
 
@@ -35,6 +35,11 @@ func extraSpecs() []*PropertySpec {
 		{ID: "C04", Rules: []string{"LOG-WSP", "RESTORE-COVER"}, Decided: "the bundled log syncs before publishing an append; restore rebuilds term, vote, log, snapshot boundary and configuration from disk"},
 		{ID: "C08", Rules: []string{"RESTORE-COVER"}, Thorough: []string{"STATE-ATOMIC"}, Decided: "restore reloads currentTerm and votedFor from results #0/#1 of StateStorage.State()"},
 		{ID: "C10", Rules: []string{"RESTORE-COVER"}, Decided: "restore takes lastApplied, commitIndex and the snapshot boundary from the metadata of the very file handed to StateMachine.Restore"},
+		{ID: "C05", Rules: []string{"VERIFY-ROUND"}, Decided: "a read is marked quorum-verified only by a heartbeat round that was started after the read was submitted (per-operation stamp strictly below the round's identifier, which is fixed when the round starts)"},
+		{ID: "C17", Rules: []string{"CONTACT-REFRESH"}, Decided: "every AppendEntries reply that the leader counts towards its lease quorum (accepted or rejected for a log mismatch) was preceded by the voter's refresh of lastContact, the promise the lease rests on"},
+		{ID: "C16", Rules: []string{"CONTACT-REFRESH"}, Decided: "a voter in contact with the leader (any non-stale AppendEntries, also a rejected one) refreshes lastContact, which is what makes it ignore vote requests"},
+		{ID: "C16", Rules: []string{"HANDLER-DEMOTE"}, Decided: "a (pre)candidate that accepts a message from the leader of its own or a later term becomes a follower before it answers: otherwise its next election timeout counts as a won prevote and it raises its term unasked"},
+		{ID: "C02", Rules: []string{"HANDLER-DEMOTE"}, Decided: "a candidate that recognises the leader of its term stops campaigning in that term"},
 		{ID: "C10", Rules: []string{"SEND-LABEL"}, Decided: "a snapshot request is labelled with the metadata of the very file whose bytes it carries, not with the node's boundary"},
 		{ID: "C11", Rules: []string{"SEND-LABEL"}, Decided: "a snapshot request is labelled with the metadata of the very file whose bytes it carries"},
 		{ID: "C11", Rules: []string{"COMPACT-KEEP"}, Decided: "Compact keeps the boundary entry as placeholder plus the suffix, DiscardEntries leaves exactly the placeholder, LastIndex/LastTerm/NextIndex read the last element"},
@@ -44,13 +49,15 @@ func extraSpecs() []*PropertySpec {
 		{ID: "C01", Rules: []string{"APPLY-ORDER"},
 			Decided: "the apply loop fetches log[lastApplied+1] only while lastApplied < commitIndex, hands exactly that entry's index/term/data to the state machine and advances lastApplied by one"},
 		{ID: "C07", Rules: []string{"COMPACT-KEEP"}, Decided: "the bundled log's LastIndex/LastTerm, which the vote restriction compares against, survive compaction (the boundary entry, with its term, stays as the placeholder)"},
+		{ID: "C07", Rules: []string{"COMMIT-LEADER", "SENDER", "QUORUM-SHAPE"},
+			Decided: "an entry is reported committed by a leader only when a majority of voters verifiably holds it (matchIndex set from what a request of this term carried, reset on every election win): without that, a later leader elected by the other majority need not have it"},
 		{ID: "C07", Rules: []string{"LEADER-APPEND"},
 			Decided: "a leader creates entries only at NextIndex() with its current term and appends a no-op of its term before its first send"},
 		{
 			ID:         "C03",
-			Rules:      []string{"LEADER-APPEND", "APPLY-ORDER", "LEADER-EXIT-RESET", "FUT-RESOLVE"},
-			Thorough:   []string{"OWNERS", "COMMIT-LEADER"},
-			Decided:    "futures of replicated operations are registered under the index of the very entry appended (after the append, same critical section, as leader), answered from that entry and the state machine's result for it, removed at lookup, and failed (tables emptied, manager replaced) on every exit from the leader role to a running role; every future is answered or registered with a responder on every path",
+			Rules:      []string{"LEADER-APPEND", "APPLY-ORDER", "LEADER-EXIT-RESET", "FUT-RESOLVE", "COMMIT-LEADER", "SENDER", "QUORUM-SHAPE"},
+			Thorough:   []string{"OWNERS", "COMMIT-FOLLOWER"},
+			Decided:    "a future is answered at apply time, i.e. for a committed entry, so the leader's commit rule is a necessary condition of a truthful acknowledgement: commit only by counting voters whose matchIndex was set from what a request of this term verifiably carried (COMMIT-LEADER, SENDER/MATCH-PROV, QUORUM-SHAPE); futures of replicated operations are registered under the index of the very entry appended (after the append, same critical section, as leader), answered from that entry and the state machine's result for it, removed at lookup, and failed (tables emptied, manager replaced) on every exit from the leader role to a running role; every future is answered or registered with a responder on every path",
 			NotDecided: "linearizability of client histories, real-time order, at-most-once application (properties of histories; not decidable from the shape of the code)",
 		},
 		{
